@@ -167,14 +167,19 @@ Theorem cache_key_spec : forall sc c ch fuel e f s' e' a,
 Proof. exact cache_put_spec_resolve. Qed.
 Print Assumptions cache_key_spec.
 
-(* ... and a later resolution whose first candidate has such an entry returns it without a query. *)
-Theorem cache_hit_spec : forall sc c ch fuel e q rest a,
-  c_qnames c = q :: rest -> c_cache c = true ->
+(* ... and a later resolution returns such an entry without sending a query: when the candidates
+   before it are known (cached) not to exist and have no cached answer themselves. *)
+Theorem cache_hit_spec : forall sc c ch fuel e pre q rest a,
+  c_qnames c = pre ++ q :: rest -> c_cache c = true ->
+  (forall p, In p pre ->
+     cache_get ch {| k_name := p; k_type := c_rdtype c; k_class := c_rdclass c |} (e_clock e) = None /\
+     exists a', cache_get ch {| k_name := p; k_type := tANY; k_class := c_rdclass c |} (e_clock e) = Some a' /\
+                a_rcode a' = rcNXDOMAIN) ->
   cache_get ch {| k_name := q; k_type := c_rdtype c; k_class := c_rdclass c |} (e_clock e) = Some a ->
   exists s', resolve_with fuel sc c ch e =
     ((if (match a_rrset a with None => true | Some _ => false end) && c_raise c then FNoAnswer a else FAnswer a), s', e)
     /\ s_cache s' = ch.
-Proof. exact cache_hit_spec_resolve. Qed.
+Proof. exact cache_hit_general_resolve. Qed.
 Print Assumptions cache_hit_spec.
 
 (* ---------- non-vacuity: a concrete run satisfying all hypotheses ---------- *)
